@@ -302,6 +302,49 @@ func c13TemplateYaml(r *rand.Rand) Case {
 			fail = append(fail, fmt.Sprintf("template(trim=%v,yaml=%v) %q stored %#v, expected %#v", tv.trim, tv.yaml, tv.tmpl, got2, want2))
 		}
 	}
+	// rendered texts whose YAML parse is not a plain tree of scalars: an empty document (nothing, a comment, blanks), anchors
+	// and aliases (an alias stands for a copy of the anchored node), an alias into its own anchor.  Whatever is stored, the
+	// operation succeeds or fails cleanly and the data document stays readable.
+	{
+		av := []struct {
+			tmpl string
+			want any // nil: only "readable afterwards" is required
+		}{
+			{`{{ "" }}`, ""},
+			{"# {{ .a }} only a comment\n", ""},
+			{"  \n\t\n", ""},
+			{"---\n", ""},
+			{"a: &x {{ .a }}\nb: *x\n", map[string]any{"a": "1", "b": "1"}},
+			{"base: &b {k: [{{ .b }}, 2]}\nuse: *b\nagain: *b\n", map[string]any{"base": map[string]any{"k": []any{"x", "2"}}, "use": map[string]any{"k": []any{"x", "2"}}, "again": map[string]any{"k": []any{"x", "2"}}}},
+			{"l: [&i {{ .b }}, *i, [*i]]\n", map[string]any{"l": []any{"x", "x", []any{"x"}}}},
+			{"&a [*a]\n", nil},
+			{"x: &a {k: *a}\n", nil},
+		}[r.Intn(9)]
+		d3 := anyToContainer(map[string]any{"a": "1", "b": "x", "keep": map[string]any{"k": "v"}})
+		trim := r.Intn(2) == 0
+		top := &pipeline.TemplateOp{Template: av.tmpl, Path: "out", ParseAs: &y, Trim: &trim}
+		var err5 error
+		if pn := guard(func() { err5 = pipeline.New(pipeline.WithData(d3)).Execute(top) }); pn != "" {
+			fail = append(fail, fmt.Sprintf("panic in template(parseAs yaml) %q: %s", av.tmpl, pn))
+		}
+		var m3 map[string]any
+		if pn := guard(func() { m3 = d3.AsMap(); _ = d3.Flatten(); _ = d3.Clone() }); pn != "" {
+			fail = append(fail, fmt.Sprintf("after template(parseAs yaml) %q (err=%v) the data document cannot be read any more: %s", av.tmpl, err5, pn))
+		} else if !reflect.DeepEqual(m3["keep"], map[string]any{"k": "v"}) || m3["a"] != "1" {
+			fail = append(fail, fmt.Sprintf("template(parseAs yaml) %q changed data outside its path: %v", av.tmpl, m3))
+		} else if av.want != nil && err5 == nil && !reflect.DeepEqual(strScalars(m3["out"]), av.want) {
+			fail = append(fail, fmt.Sprintf("template(parseAs yaml) %q stored %#v, expected %#v", av.tmpl, m3["out"], av.want))
+		} else if av.want != nil && err5 != nil {
+			fail = append(fail, fmt.Sprintf("template(parseAs yaml) %q failed: %v", av.tmpl, err5))
+		}
+		// edits of one expansion of an alias do not show in another
+		if mo, ok := m3["out"].(map[string]any); ok && err5 == nil && mo["use"] != nil {
+			_ = guard(func() { d3.AddValueAt("out.use.k[0]", dom.LeafNode("edited")) })
+			if m4 := d3.AsMap()["out"].(map[string]any); !reflect.DeepEqual(strScalars(m4["again"]), strScalars(mo["again"])) || !reflect.DeepEqual(strScalars(m4["base"]), strScalars(mo["base"])) {
+				fail = append(fail, "two expansions of one YAML alias share a node: an edit below out.use shows below out.again / out.base")
+			}
+		}
+	}
 	return Case{Kind: "template-yaml", Desc: map[string]any{"stored": got, "variant": tv.tmpl, "trim": tv.trim, "yaml": tv.yaml}, Fail: fail, Nontrivial: true, Key: fmt.Sprint(r.Int())}
 }
 
